@@ -148,12 +148,18 @@ theorem compound_all_powers (p₁ u₁ w₁ p₂ u₂ w₂ : Str) (sep : Char) (
 /-! ## The statement shape of `scaling()`
 
 `Scaling.scaling` interprets the shape of `scaling()` regenerated from the source into
-`Generated/UnitsScaling.lean` (shortcut comparisons, the if/elif chain on the prefixes with the expression each
+`Generated/UnitsScaling.lean` (the expression of `is_si`, the SI guard and component comparison of `scalable`;
+for `scaling`: shortcut comparisons, the if/elif chain on the prefixes with the expression each
 branch assigns, which power is applied); it is the function the driver runs against the implementation. -/
 
 /-- the regenerated shape computes the hand-written model for all inputs: every theorem about `scaling` in this
 file is a theorem about the code's branches as they are in the source today -/
 theorem scaling_shape (a b : Str) : Scaling.scaling a b = scaling a b := scalingGen_eq a b
+
+/-- likewise the expression `is_si` returns and the guard / comparison of `scalable` -/
+theorem recognition_shape (a b : Str) :
+    Scaling.isSi a = isSi a ∧ Scaling.scalable a b = scalable a b :=
+  ⟨isSiGen_eq a, scalableGen_eq a b⟩
 
 /-- in particular: the prefix ratio to the power, for every power text -/
 theorem scaling_shape_ratio (p₁ p₂ u w : Str) (h₁ : p₁ ∈ optPrefixes) (h₂ : p₂ ∈ optPrefixes)
